@@ -101,8 +101,8 @@ EXACT = ('each function is verified against an EXACT characterisation of what it
          'variables: feas() == (old(feas()) and <the stated constraints>), which is soundness and completeness of the constraint set at once, for every instance size; ')
 PROPS['C01'] = dict(
     title='Reported matching is always a valid matching of the input instance',
-    functions=[LP + 'upper_lower_constraints', LP + 'run_optimisations', LP + 'run'],
-    lemmas=[], level='other',
+    functions=[LP + 'upper_lower_constraints', LP + 'run_optimisations', LP + 'run', MOD + '_get_pair_assignments', MOD + '_get_matching_string', MOD + 'set_project_lists', MOD + 'set_lecturer_lists'],
+    lemmas=['C01/closure-pair', 'LISTSET/empty-append', 'LISTSET/iterate'], level='other',
     level_text=EXACT + 'upper_lower_constraints adds exactly: every row sum <= 1, every project list sum within [lq, uq] (or the closure-gated pair), every lecturer list sum within [lq, uq]; run / run_optimisations never remove a constraint (constraints-only-grow).  NOT proved deductively (bounded stand-in): that project_lists / lecturer_lists hold exactly the pairs of that project / lecturer (ModelWF sum identity from set_project_lists), variable creation in pulp_setup, and reading the matching back in _get_pair_assignments / get_results',
     harness=True, bound='<= 4 students x <= 3 projects x <= 3 lecturers, 0-3 random criteria, real CBC',
     budget={'quick': 25, 'thorough': 300}, trusted=T_LP,
@@ -110,7 +110,7 @@ PROPS['C01'] = dict(
 PROPS['C02'] = dict(
     title='Solver reports Optimal exactly when a feasible matching exists; never errors',
     functions=[LP + 'run', LP + 'run_optimisations'] + CRIT_FUNCS,
-    lemmas=['SUM/ext'], level='other',
+    lemmas=['SUM/ext', 'SUM/le', 'SUM/const', 'C02/size-bound'], level='other',
     level_text=EXACT + 'run: never raises, solves at least once, returns the status of the last solve, only the last solve may have failed; every criterion creates a variable with a fresh literal name (duplicate names raise in PuLP).  NOT proved deductively (bounded stand-in): that the upper bound given to each objective variable admits the witness value of every feasible matching (witness-in-bounds), i.e. that criteria never turn a feasible instance infeasible',
     harness=True, bound='<= 5 students x <= 3 projects x <= 3 lecturers incl. objective-bound stress instances, 0-3 random criteria, real CBC',
     budget={'quick': 30, 'thorough': 400}, trusted=T_LP,
@@ -132,8 +132,8 @@ PROPS['C04'] = dict(
     assumptions=['lex_chain meta-lemma not machine-checked'])
 PROPS['C05'] = dict(
     title='With stability requested the solver searches exactly the stable matchings',
-    functions=[LP + 'stability_constraints'], lemmas=['C05/prefix-filter'], level='other',
-    level_text=EXACT + 'stability_constraints adds, for every acceptable pair p of every student, exactly: -d_k*alpha_p + (sum over l_k\'s list of the variables of other students ranked at least as well as s_i) >= 0, the same with -c_j*beta_p restricted to p_j, and (1 - sum of s_i\'s variables at rank <= rank(p)) - alpha_p - beta_p <= 0 (while-loop prefix = rank filter by lemma C05/prefix-filter on sorted rows).  NOT proved deductively (bounded stand-in): the equivalence "exists alpha,beta in {0,1} satisfying the three constraints <=> p does not block" (needs the sum-squeeze lemmas)',
+    functions=[LP + 'stability_constraints'], lemmas=['C05/prefix-filter', 'SUM/le', 'SUM/squeeze', 'SUM/ext', 'C05/no-blocking-iff', 'C05/alpha-beta-gamma'], level='other',
+    level_text=EXACT + 'stability_constraints adds, for every acceptable pair p of every student, exactly: -d_k*alpha_p + (sum over l_k\'s list of the variables of other students ranked at least as well as s_i) >= 0, the same with -c_j*beta_p restricted to p_j, and (1 - sum of s_i\'s variables at rank <= rank(p)) - alpha_p - beta_p <= 0 (while-loop prefix = rank filter by lemma C05/prefix-filter on sorted rows).  The logical core is machine-checked over abstract list quantities: exists alpha,beta in {0,1} satisfying the three constraints <=> (s_i assigned at rank <= rank(p), or Lk >= d_k, or Pj >= c_j) (C05/alpha-beta-gamma) <=> p does not block, given capacities are respected (C05/no-blocking-iff, by the sum-squeeze lemma).  NOT proved deductively (bounded stand-in): the bridge from these abstract quantities to the loads of the property statement (lecturer_lists[k] holds exactly l_k\'s pairs, each once: ModelWF sum identity)',
     harness=True, bound='<= 4 students x <= 3 projects x <= 3 lecturers, two-sided, -stab with 0-1 criteria, real CBC; all stable matchings enumerated',
     budget={'quick': 25, 'thorough': 300}, trusted=T_LP,
     assumptions=['semantic equivalence of the alpha/beta/gamma system with the blocking-pair definition: bounded stand-in only'])
